@@ -196,6 +196,12 @@ class Chooser:
         ren.update(om)
         for l in cone:
             ren.setdefault(l, f'{tag}_g_{l}')
+        # now and then an internal gate of the replacement carries the label of a host gate that stays
+        # outside the replaced cone (a label collision: the call must refuse it or still be correct)
+        inner = [l for l in cone if l not in outs]
+        outside = [l for l in gates if l not in cone and l not in leaves]
+        if inner and outside and rng.random() < 0.15:
+            ren[rng.choice(inner)] = rng.choice(outside)
         sub = {'g': {}, 'ord': [], 'i': [im[l] for l in leaves], 'o': [om[l] for l in outs], 'b': {}}
         for l in leaves:
             sub['g'][im[l]] = {'t': 'INPUT', 'o': []}
